@@ -127,8 +127,10 @@ def val(d):
 class VComp(fm.TimeComponent):
     """time-stepped harness component; publishes its own time (hours) on every output"""
 
-    def __init__(self, name, menu, fixed=None, ins=(), outs=(), start=0, pull_initial=True):
+    def __init__(self, name, menu, fixed=None, ins=(), outs=(), start=0, pull_initial=True, finish_at=None):
         super().__init__()
+        self.finish_at = finish_at  # the component declares itself FINISHED once it reached this time (hours)
+        self.declared_finished = False
         self._name = name
         self.menu = list(menu)
         self.fixed = list(fixed) if fixed else None
@@ -178,6 +180,8 @@ class VComp(fm.TimeComponent):
         self._life("update")
         w = W()
         nt = self._next_time()
+        if self.declared_finished:
+            w.v("C03.updated_after_finished", dict(kind="updated_after_finished"), f"{self.name} declared FINISHED at {float(hrs(self._time))} and is updated again")
         w.on_update_entry(self, nt)
         self.pending = None
         if self.fixed:
@@ -193,6 +197,9 @@ class VComp(fm.TimeComponent):
         self._time = nt
         for n in self.outs:
             self.outputs[n].push_data(self.value(), self.time)
+        if self.finish_at is not None and hrs(self._time) >= self.finish_at:
+            self.status = CS.FINISHED
+            self.declared_finished = True
         w.on_update_exit(self)
 
     def _finalize(self):
@@ -340,7 +347,7 @@ class Run:
         self.comps = {}
         for c in cfg["comps"]:
             if c["kind"] == "T":
-                self.comps[c["name"]] = VComp(c["name"], c.get("menu", [1]), c.get("fixed"), c.get("ins", ()), c.get("outs", ()), c.get("start", 0), c.get("pull_initial", True))
+                self.comps[c["name"]] = VComp(c["name"], c.get("menu", [1]), c.get("fixed"), c.get("ins", ()), c.get("outs", ()), c.get("start", 0), c.get("pull_initial", True), c.get("finish_at"))
             else:
                 self.comps[c["name"]] = PComp(c["name"], c.get("ins", ()), c.get("outs", ()), slot_time=self.t_start)
         self.links = [Shared(l) for l in cfg["links"]]
@@ -504,7 +511,8 @@ class Run:
         # C03: strictly increasing time, no update once everybody reached the end
         if not t_next > times[U.name]:
             self.v("C03.time_not_increasing", dict(kind="time_not_increasing"), desc())
-        if self.end > self.t_start and all(t >= self.end for t in times.values()):
+        active = {n: t for n, t in times.items() if not tcs[n].declared_finished}
+        if self.end > self.t_start and all(t >= self.end for t in active.values()):
             self.v("C03.update_after_end", dict(kind="update_after_end"), desc() + f" end={self.end}")
         # C01(iii): U lacks nothing
         lu = self.lacking(U.name, t_next)
@@ -512,10 +520,10 @@ class Run:
             cls = sorted({tok_class(self.links[li]["chain"]) for li in self.in_links[U.name]})
             self.v("C01.lacking", dict(kind="updated_while_upstream_lacks_data", chains=cls), desc() + f" lacking {lu}")
         # C02: U is the furthest back or upstream of it along lacking edges
-        mn = min(times.values())
+        mn = min(active.values())  # components that declared themselves finished no longer count as "furthest back"
         if len({float(t) for t in times.values()}) < len(times):
             self.stats["updates_with_time_ties"] += 1
-        seen, stack = set(), [n for n, t in times.items() if t == mn and tcs[n].pending is not None]
+        seen, stack = set(), [n for n, t in active.items() if t == mn and tcs[n].pending is not None]
         while stack:
             x = stack.pop()
             if x in seen:
@@ -632,7 +640,7 @@ class Run:
         end = Fr(self.end)
         for n, c in self.comps.items():
             if isinstance(c, VComp):
-                if hrs(c._time) < end and c.status != CS.FINISHED:
+                if hrs(c._time) < end and not c.declared_finished:
                     self.v("C03.end_not_reached", dict(kind="end_not_reached"), f"{n} at {float(hrs(c._time))} < end {self.end}")
             if c.life != "finalized":
                 self.v("C03.lifecycle", dict(kind="lifecycle", state=c.life.split(":")[0]), f"{n} life-cycle automaton in {c.life} after run()")
